@@ -53,6 +53,8 @@ var c16Types = []c16Type{
 	{"uint64", "uint64", []string{"10", "9223372036854775807", "9223372036854775808", "18446744073709551615", "0.5"}},
 	{"decimal64", "decimal64 { fraction-digits 2; }", []string{"1.5", "-1.5", "10"}},
 	{"string", "string", []string{"'m'", "'ab'"}},
+	// XPath 1.0 3.4: a string compared with a number counts as the number it reads as (NaN if none)
+	{"string-number", "string", []string{"2", "1.5", "-3"}},
 	{"boolean", "boolean", []string{"'true'", "'false'"}},
 	{"enumeration", "enumeration { enum zero; enum one; enum five { value 5; } }", []string{"'one'", "'five'"}},
 	{"identityref", "identityref { base base-id; }", []string{"'id-b'"}},
@@ -136,6 +138,14 @@ func c16Operands(lf meta.Leafable, typ, literal string) ([]c16Operand, val.Value
 		below := lit[:len(lit)-1] + string(rune(lit[len(lit)-1]-1))
 		out = append(out, c16Operand{"below", val.String(below)}, c16Operand{"equal", val.String(lit)}, c16Operand{"above", val.String(lit + "a")}, c16Operand{"type-min", val.String("")}, c16Operand{"above", val.String("é")}, c16Operand{"below", val.String(strings.ToUpper(lit))})
 		litV = val.String(lit)
+	case "string-number":
+		f, _ := strconv.ParseFloat(lit, 64)
+		out = append(out, c16Operand{"below", val.String(strconv.FormatFloat(f-1, 'f', -1, 64))}, c16Operand{"equal", val.String(lit)}, c16Operand{"equal-other-spelling", val.String(lit + "0")}, c16Operand{"equal-padded", val.String(" " + lit + " ")},
+			c16Operand{"above", val.String(strconv.FormatFloat(f+1, 'f', -1, 64))}, c16Operand{"above-longer-text", val.String("10")}, c16Operand{"not-a-number", val.String("abc")}, c16Operand{"not-a-number", val.String("")})
+		if !strings.Contains(lit, ".") {
+			out[3].v = val.String(lit + ".0")
+		}
+		litV = val.String(lit)
 	case "boolean":
 		out = append(out, c16Operand{"value-false", val.Bool(false)}, c16Operand{"value-true", val.Bool(true)})
 		litV = val.Bool(lit == "true")
@@ -158,6 +168,13 @@ func c16Truth(typ, op string, a, lit val.Value) bool {
 	}
 	var c int
 	switch typ {
+	case "string-number":
+		ra, isNumber := new(big.Rat).SetString(strings.TrimSpace(string(a.(val.String))))
+		if !isNumber {
+			return op == "!="
+		}
+		rl, _ := new(big.Rat).SetString(string(lit.(val.String)))
+		c = ra.Cmp(rl)
 	case "string":
 		c = strings.Compare(string(a.(val.String)), string(lit.(val.String)))
 	case "identityref":
